@@ -18,7 +18,7 @@ RULE = (
     "and elements that trigger magic trailing commas) under a generated [tool.black] section (line-length "
     "20..120, skip-magic-trailing-comma, skip-string-normalization, preview); the harness formats the module "
     "with its own black.Mode built from those options (independent TOML handling) to make it clean, or leaves it "
-    "unclean; optionally the file holds other code whose black layout depends on the python versions black infers "
+    "unclean; black through its API or as a format-command (quiet, or also writing to stderr); optionally the file holds other code whose black layout depends on the python versions black infers "
     "from the file (long with-statements, star-argument calls, return unpacking, match, type parameters); approved set drawn from the 16 subsets (create+fix weighted up). Oracle, clean before: "
     "black(new, same mode) == new; if not, the text u that was handed to the whole-file formatting step is "
     "captured and black(black(u)) == black(u) is checked - when black itself is not idempotent there the case is "
@@ -40,13 +40,22 @@ def _mode(draw):
     }
 
 
-def pyproject_of(mode):
+FMTCMDS = {
+    "quiet": "/venv/bin/python -m black -q --stdin-filename {filename} -",
+    # a working formatter that also talks on stderr (black without -q, a linter | formatter pipeline)
+    "stderr": "sh -c 'echo reformatted - 1>&2; exec /venv/bin/python -m black -q --stdin-filename {filename} -'",
+}
+
+
+def pyproject_of(mode, fmtcmd=None):
     lines = ["[tool.black]"]
     if mode["line_length"] is not None:
         lines.append(f"line-length = {mode['line_length']}")
     for k in ("skip_magic_trailing_comma", "skip_string_normalization", "preview"):
         if mode[k] is not None:
             lines.append(f"{k.replace('_', '-')} = {'true' if mode[k] else 'false'}")
+    if fmtcmd:
+        lines += ["", "[tool.inline-snapshot]", f'format-command = "{FMTCMDS[fmtcmd]}"']
     return "\n".join(lines) + "\n"
 
 
@@ -97,7 +106,9 @@ def _case(draw, tier):
     F = draw(st.one_of(st.just(["create", "fix"]), st.just(["create", "fix", "trim", "update"]), flag_sets()))
     return {"prog": prog, "mode": mode, "F": F, "clean": draw(st.sampled_from([True, True, False])),
             # other code in the file whose layout depends on what black infers about the python version
-            "filler": draw(st.sampled_from([None, None] + sorted(FILLERS)))}
+            "filler": draw(st.sampled_from([None, None] + sorted(FILLERS))),
+            # black as a format-command (it reads the same [tool.black] section), quiet or talking on stderr
+            "fmtcmd": draw(st.sampled_from([None, None, None, None, "quiet", "stderr"]))}
 
 
 def signature(case):
@@ -137,7 +148,7 @@ def check(case):
 
     rc.format_code = spy
     try:
-        ses = drivers.run_inline({"test_a.py": src}, set(case["F"]), pyproject=pyproject_of(case["mode"]))
+        ses = drivers.run_inline({"test_a.py": src}, set(case["F"]), pyproject=pyproject_of(case["mode"], case.get("fmtcmd")))
     finally:
         rc.format_code = orig
     if not ses.ok():
@@ -148,7 +159,12 @@ def check(case):
     classes = ["clean" if clean else "unclean", "changed" if changed else "unchanged"]
     if ses.problems:
         classes.append("problem-reported")
-    if clean:
+    if case.get("fmtcmd"):
+        classes.append("format-command")
+        if ses.problems:
+            raise Violation("problem-with-working-format-command",
+                            f"the configured format-command works, but a problem was reported: {ses.problems}\n{src}")
+    if clean or (case.get("fmtcmd") and changed):
         try:
             again = black.format_str(new, mode=mode)
         except Exception as e:
